@@ -578,25 +578,17 @@ impl Profile {
 pub static MAX_ALLOC_REQUEST: AtomicUsize = AtomicUsize::new(0);
 const ALLOC_ALARM: usize = 64 << 20;
 
-/// Everything a child reports back (one JSON line).
-#[derive(Default)]
-struct Tally {
-    evals: u64,
-    outcomes: BTreeMap<String, u64>,
-    counters: BTreeMap<String, u64>,
-    violations: Vec<(String, String, Value)>,
-    machinery: Vec<String>,
-    guards: BTreeMap<String, bool>,
-    sample: Value,
-    exports_ok: u64,
-}
-
-/// Context of one unit running in a child process (single-threaded).
+/// Context of one batch of jobs running in a child process (single-threaded).  Everything it
+/// learns is written to stdout as one line per fact, immediately, so that nothing is lost when
+/// the process dies; see `run_child` for the protocol.
 struct Ctx {
-    hist: String,
-    skip: BTreeSet<u64>,
+    hist: RefCell<String>,
+    hist_index: Cell<usize>,
+    /// faults `< resume_after` were evaluated by an earlier child of this batch, fault
+    /// `== resume_after` killed it
+    resume_after: i64,
+    /// index of the next fault to start
     seq: Cell<u64>,
-    tally: RefCell<Tally>,
 }
 
 #[derive(Clone, Copy, PartialEq, Eq)]
@@ -618,40 +610,44 @@ enum Got {
 }
 
 impl Ctx {
-    fn eval(&self, n: u64) {
-        self.tally.borrow_mut().evals += n;
-    }
-    fn outcome(&self, profile: Profile, fault: &str, result: &str) {
-        *self
-            .tally
-            .borrow_mut()
-            .outcomes
-            .entry(format!("wsc/{}/{fault}→{result}", profile.name()))
-            .or_insert(0) += 1;
-    }
-    fn counter(&self, name: &str, n: u64) {
-        *self.tally.borrow_mut().counters.entry(name.to_string()).or_insert(0) += n;
-    }
-    fn machinery(&self, msg: &str) {
-        let mut t = self.tally.borrow_mut();
-        if t.machinery.len() < 8 {
-            t.machinery.push(format!("wsc [{}]: {msg}", self.hist));
+    /// Print one protocol line unless an earlier child of this batch already printed it.
+    fn emit(&self, line: String) {
+        if (self.seq.get() as i64) > self.resume_after {
+            println!("{line}");
         }
     }
+    fn eval(&self, n: u64) {
+        self.emit(format!("E\t{n}"));
+    }
+    fn outcome(&self, profile: Profile, fault: &str, result: &str) {
+        self.emit(format!("O\twsc/{}/{fault}→{result}", profile.name()));
+    }
+    fn counter(&self, name: &str, n: u64) {
+        self.emit(format!("C\t{name}\t{n}"));
+    }
+    fn machinery(&self, msg: &str) {
+        self.emit(format!("M\twsc [{}]: {}", self.hist.borrow(), msg.replace(['\n', '\t'], " ")));
+    }
     fn guard(&self, name: &str, ok: bool) {
-        let mut t = self.tally.borrow_mut();
-        let e = t.guards.entry(name.to_string()).or_insert(true);
-        *e = *e && ok;
+        self.emit(format!("G\t{name}\t{}", u8::from(ok)));
+    }
+    fn sample(&self, v: Value) {
+        self.emit(format!("S\t{v}"));
+    }
+    fn export_ok(&self) {
+        self.emit("X\t1".to_string());
     }
     fn violation(&self, sig: String, fault: Value, extra: Value) {
         let order = format!("{fault}");
-        self.tally.borrow_mut().violations.push((
-            sig,
-            order,
+        self.emit(format!(
+            "V\t{}",
             json!({
-                "case": {"part": "wsc", "history": self.hist, "fault": fault},
-                "observed": extra,
-            }),
+                "sig": sig, "hist_index": self.hist_index.get(), "order": order,
+                "detail": {
+                    "case": {"part": "wsc", "history": *self.hist.borrow(), "fault": fault},
+                    "observed": extra,
+                },
+            })
         ));
     }
 
@@ -660,12 +656,16 @@ impl Ctx {
     fn fault(&self, profile: Profile, kind: &str, oracle: Oracle, fault: Value, f: impl FnOnce() -> Got) {
         let seq = self.seq.get();
         self.seq.set(seq + 1);
-        if self.skip.contains(&seq) {
-            // a previous child died here; the parent has recorded the violation
+        if (seq as i64) < self.resume_after {
+            return; // evaluated (and reported) by an earlier child of this batch
+        }
+        if (seq as i64) == self.resume_after {
+            // the previous child died here; the parent has recorded the violation
+            self.eval(1);
             self.outcome(profile, kind, "PROCESS-ABORTED");
             return;
         }
-        println!("B\t{seq}\t{}\t{kind}\t{fault}", profile.name());
+        println!("B\t{seq}\t{}\t{}\t{kind}\t{fault}", self.hist_index.get(), profile.name());
         MAX_ALLOC_REQUEST.store(0, Ordering::Relaxed);
         let got = match mc::catch(f) {
             Ok(g) => g,
@@ -676,7 +676,7 @@ impl Ctx {
         if req > ALLOC_ALARM {
             self.outcome(profile, kind, "ALLOCATION-REQUEST-OVER-64MiB");
             self.violation(
-                format!("wsc:{}:{kind}-unbounded-allocation:request-over-64MiB", profile.name()),
+                format!("wsc:{}:{kind}-huge-alloc:over-64MiB", profile.name()),
                 fault.clone(),
                 json!({"largest_single_allocation_request_bytes": req}),
             );
@@ -691,7 +691,7 @@ impl Ctx {
                     .collect();
                 self.outcome(profile, kind, &format!("PANIC:{short}"));
                 let sig = if msg.contains("capacity overflow") {
-                    format!("wsc:{}:{kind}-unbounded-allocation:panic-capacity-overflow", profile.name())
+                    format!("wsc:{}:{kind}-huge-alloc:capacity-panic", profile.name())
                 } else {
                     format!("wsc:{}:{kind}-panics:{short}", profile.name())
                 };
@@ -718,7 +718,7 @@ impl Ctx {
                 self.outcome(profile, kind, &format!("ACCEPTED-{how}"));
                 let sig = match oracle {
                     Oracle::MustRefuse => format!("wsc:{}:{kind}-accepted", profile.name()),
-                    Oracle::ErrOrSame => format!("wsc:{}:{kind}-import-ok-with-different-records", profile.name()),
+                    Oracle::ErrOrSame => format!("wsc:{}:{kind}-ok-different", profile.name()),
                 };
                 self.violation(sig, fault, json!(text));
             }
@@ -875,7 +875,7 @@ fn envelope_flips<X: Export>(
     cx: &Ctx,
     profile: Profile,
     export: &X,
-    ei: usize,
+    (ei, lo, hi): (usize, usize, usize),
     bits: &[u8],
     validate: &dyn Fn(&X) -> Verdict,
 ) {
@@ -883,11 +883,19 @@ fn envelope_flips<X: Export>(
     let env = export.env(ei).clone();
     let encoded = env.encode();
     let wsc = env.wsc_bytes().to_vec();
-    cx.counter(&format!("wsc/envelope_bytes_flipped/{}/{name}", profile.name()), (encoded.len() + wsc.len()) as u64);
+    let total = encoded.len() + wsc.len();
+    let in_range = |p: usize| p >= lo && p < hi.min(total);
+    cx.counter(
+        &format!("wsc/envelope_bytes_flipped/{}/{name}", profile.name()),
+        (hi.min(total).saturating_sub(lo)) as u64,
+    );
     // (a) encoded form: header fields + payload
     for pos in 0..encoded.len() {
+        if !in_range(pos) {
+            continue;
+        }
         for &bit in bits {
-            let kind = format!("envelope-{name}-encoded-byte-flip");
+            let kind = format!("env-{name}-encoded-flip");
             cx.fault(
                 profile,
                 &kind,
@@ -906,8 +914,11 @@ fn envelope_flips<X: Export>(
     }
     // (b) WSC payload with a recomputed envelope digest
     for pos in 0..wsc.len() {
+        if !in_range(encoded.len() + pos) {
+            continue;
+        }
         for &bit in bits {
-            let kind = format!("envelope-{name}-rewrapped-byte-flip");
+            let kind = format!("env-{name}-rewrapped-flip");
             cx.fault(
                 profile,
                 &kind,
@@ -937,8 +948,9 @@ fn must_refuse(cx: &Ctx, profile: Profile, fault_kind: &str, fault: Value, f: im
 pub enum Part {
     /// honest round trip, withheld material, (optionally) every byte of every blob flipped
     Main,
-    /// every byte of envelope #n flipped
-    Envelope(usize),
+    /// every byte of envelope #n flipped; positions [lo, hi) of the concatenation
+    /// encoded-form ‖ WSC-payload (chunked so that a child death only repeats a small unit)
+    Envelope(usize, usize, usize),
 }
 
 #[derive(Clone, Debug)]
@@ -954,17 +966,17 @@ pub struct Unit {
 }
 
 impl Unit {
-    fn to_env(&self, skip: &BTreeSet<u64>) -> String {
+    fn to_json(&self) -> Value {
         json!({
+            "hist_index": self.hist_index,
             "history": self.history.render(),
             "profile": self.profile.name(),
-            "part": match self.part { Part::Main => -1i64, Part::Envelope(n) => n as i64 },
+            "part": match self.part { Part::Main => -1i64, Part::Envelope(n, _, _) => n as i64 },
+            "range": match self.part { Part::Main => json!(null), Part::Envelope(_, lo, hi) => json!([lo, hi]) },
             "bits": self.bits,
             "blob_flips": self.blob_flips,
             "disk_flips": self.disk_flips,
-            "skip": skip,
         })
-        .to_string()
     }
     fn describe(&self) -> String {
         format!("{} / {} / {:?}", self.history.render(), self.profile.name(), self.part)
@@ -1016,10 +1028,10 @@ fn roundtrip_failed<E: std::fmt::Debug>(cx: &Ctx, p: Profile, e: &E) {
 fn run_unit(cx: &Ctx, b: &Built, u: &Unit, scratch: &Path) {
     let only_env = match u.part {
         Part::Main => None,
-        Part::Envelope(n) => Some(n),
+        Part::Envelope(n, lo, hi) => Some((n, lo, hi)),
     };
-    cx.tally.borrow_mut().sample = json!({
-        "history": cx.hist,
+    let base_sample = json!({
+        "history": *cx.hist.borrow(),
         "segments": b.segments.iter().map(|(id, s)| json!({"id": id.as_u64(), "bytes": s.len()})).collect::<Vec<_>>(),
         "records": {"accepted": b.acceptances.len(), "receipts": b.receipts.len(), "correlations": b.correlations.len(),
                     "retained_materials": b.materials.len(), "readings": b.readings.len(),
@@ -1034,7 +1046,7 @@ fn run_unit(cx: &Ctx, b: &Built, u: &Unit, scratch: &Path) {
                 Err(e) => roundtrip_failed(cx, u.profile, &e),
                 Ok(honest) => {
                     if only_env.is_none() {
-                        cx.tally.borrow_mut().exports_ok += 1;
+                        cx.export_ok();
                         cx.outcome(u.profile, "honest-roundtrip", "Ok-equal-records");
                         check_equal_records(
                             cx,
@@ -1060,7 +1072,7 @@ fn run_unit(cx: &Ctx, b: &Built, u: &Unit, scratch: &Path) {
                     Err(e) => roundtrip_failed(cx, u.profile, &e),
                     Ok(honest) => {
                         if only_env.is_none() {
-                            cx.tally.borrow_mut().exports_ok += 1;
+                            cx.export_ok();
                             cx.outcome(u.profile, "honest-roundtrip", "Ok-equal-records");
                             check_equal_records(
                                 cx,
@@ -1102,7 +1114,11 @@ fn run_unit(cx: &Ctx, b: &Built, u: &Unit, scratch: &Path) {
                                 .enumerate()
                                 .map(|(i, n)| (n.to_string(), export.env(i).encode().len()))
                                 .collect();
-                            cx.tally.borrow_mut().sample["self_contained_envelope_bytes"] = json!(sizes);
+                            if b.history.txs.len() == 3 {
+                                let mut sm = base_sample.clone();
+                                sm["self_contained_envelope_bytes"] = json!(sizes);
+                                cx.sample(sm);
+                            }
                         }
                         self_contained_faults(cx, b, &export, &honest, u, only_env);
                     }
@@ -1183,7 +1199,7 @@ fn run_unit(cx: &Ctx, b: &Built, u: &Unit, scratch: &Path) {
                     match (via_mem, via_disk) {
                         (Ok(honest), Ok(h2)) => {
                             if only_env.is_none() {
-                                cx.tally.borrow_mut().exports_ok += 1;
+                                cx.export_ok();
                                 cx.outcome(u.profile, "honest-roundtrip", "Ok-equal-records");
                                 if honest != h2 {
                                     cx.violation(
@@ -1233,12 +1249,12 @@ fn ref_only_faults(
     export: &WscRefOnlyWalExport,
     honest: &WscRefOnlyWalImport,
     u: &Unit,
-    only_env: Option<usize>,
+    only_env: Option<(usize, usize, usize)>,
 ) {
     let p = Profile::RefOnly;
     let validate = |x: &WscRefOnlyWalExport| verdict(validate_wsc_ref_only_wal_export(x, &b.root), honest);
-    if let Some(ei) = only_env {
-        envelope_flips(cx, p, export, ei, &u.bits, &validate);
+    if let Some(range) = only_env {
+        envelope_flips(cx, p, export, range, &u.bits, &validate);
         return;
     }
     // every field of every external segment dependency altered individually
@@ -1341,13 +1357,13 @@ fn self_contained_faults(
     export: &WscSelfContainedWalExport,
     honest: &WscSelfContainedWalImport,
     u: &Unit,
-    only_env: Option<usize>,
+    only_env: Option<(usize, usize, usize)>,
 ) {
     let p = Profile::SelfContained;
     let validate =
         |x: &WscSelfContainedWalExport| verdict(validate_wsc_self_contained_wal_export(x, &b.root), honest);
-    if let Some(ei) = only_env {
-        envelope_flips(cx, p, export, ei, &u.bits, &validate);
+    if let Some(range) = only_env {
+        envelope_flips(cx, p, export, range, &u.bits, &validate);
         return;
     }
     let empty = WscWalCausalHistoryRecords::empty;
@@ -1564,17 +1580,17 @@ fn cas_faults(
     disk: &DiskTier,
     disk_dir: &Path,
     u: &Unit,
-    only_env: Option<usize>,
+    only_env: Option<(usize, usize, usize)>,
 ) {
     let p = Profile::CasAddressed;
     let full: BTreeMap<Hash, Vec<u8>> = blobs.iter().map(|(_, h, b)| (*h, b.clone())).collect();
     let validate_with = |x: &WscCasAddressedWalExport, port: &dyn WscCasBlobStorePort| {
         verdict(validate_wsc_cas_addressed_wal_export(x, &b.root, port), honest)
     };
-    if let Some(ei) = only_env {
+    if let Some(range) = only_env {
         let port = MapPort(full.clone());
         let validate = |x: &WscCasAddressedWalExport| validate_with(x, &port);
-        envelope_flips(cx, p, export, ei, &u.bits, &validate);
+        envelope_flips(cx, p, export, range, &u.bits, &validate);
         return;
     }
     let blob_path = |h: &Hash| -> PathBuf {
@@ -1722,7 +1738,36 @@ fn profile_from(s: &str) -> Option<Profile> {
         .find(|p| p.name() == s)
 }
 
-/// `C20_UNIT=<json>`: run one unit sequentially, print `B` lines and the final `R` line.
+fn unit_from_json(v: &Value) -> Option<Unit> {
+    let history = v.get("history").and_then(|x| x.as_str()).and_then(History::parse)?;
+    let profile = v.get("profile").and_then(|x| x.as_str()).and_then(profile_from)?;
+    let range = v.get("range").and_then(|x| x.as_array()).map(|a| {
+        (
+            a.first().and_then(|x| x.as_u64()).unwrap_or(0) as usize,
+            a.get(1).and_then(|x| x.as_u64()).unwrap_or(u64::MAX) as usize,
+        )
+    });
+    let part = match v.get("part").and_then(|x| x.as_i64()).unwrap_or(-1) {
+        n if n < 0 => Part::Main,
+        n => Part::Envelope(n as usize, range.map_or(0, |r| r.0), range.map_or(usize::MAX, |r| r.1)),
+    };
+    Some(Unit {
+        hist_index: v.get("hist_index").and_then(|x| x.as_u64()).unwrap_or(0) as usize,
+        history,
+        profile,
+        part,
+        bits: v
+            .get("bits")
+            .and_then(|x| x.as_array())
+            .map(|a| a.iter().filter_map(|b| b.as_u64()).map(|b| b as u8).collect())
+            .unwrap_or_else(|| vec![0]),
+        blob_flips: v.get("blob_flips").and_then(|x| x.as_bool()).unwrap_or(false),
+        disk_flips: v.get("disk_flips").and_then(|x| x.as_bool()).unwrap_or(false),
+    })
+}
+
+/// `C20_UNIT=<json {jobs:[…], resume_after:n}>`: run a batch of jobs sequentially, printing
+/// protocol lines (`B` before each fault, facts as they are learnt, `END` at the end).
 pub fn child_main(spec: &str) -> ! {
     // address-space limit: an allocation sized from a corrupted count fails deterministically
     // instead of depending on the host's overcommit policy
@@ -1735,86 +1780,72 @@ pub fn child_main(spec: &str) -> ! {
         libc::setrlimit(libc::RLIMIT_AS, &lim);
     }
     let v: Value = serde_json::from_str(spec).unwrap_or(Value::Null);
-    let history = v.get("history").and_then(|x| x.as_str()).and_then(History::parse);
-    let profile = v.get("profile").and_then(|x| x.as_str()).and_then(profile_from);
-    let (Some(history), Some(profile)) = (history, profile) else {
-        println!("R\t{}", json!({"machinery": ["child: bad unit spec"]}));
-        std::process::exit(0);
-    };
-    let part = match v.get("part").and_then(|x| x.as_i64()).unwrap_or(-1) {
-        n if n < 0 => Part::Main,
-        n => Part::Envelope(n as usize),
-    };
-    let u = Unit {
-        hist_index: 0,
-        history: history.clone(),
-        profile,
-        part,
-        bits: v
-            .get("bits")
-            .and_then(|x| x.as_array())
-            .map(|a| a.iter().filter_map(|b| b.as_u64()).map(|b| b as u8).collect())
-            .unwrap_or_else(|| vec![0]),
-        blob_flips: v.get("blob_flips").and_then(|x| x.as_bool()).unwrap_or(false),
-        disk_flips: v.get("disk_flips").and_then(|x| x.as_bool()).unwrap_or(false),
-    };
-    let skip: BTreeSet<u64> = v
-        .get("skip")
+    let jobs: Vec<Unit> = v
+        .get("jobs")
         .and_then(|x| x.as_array())
-        .map(|a| a.iter().filter_map(|b| b.as_u64()).collect())
+        .map(|a| a.iter().filter_map(unit_from_json).collect())
         .unwrap_or_default();
     let cx = Ctx {
-        hist: history.render(),
-        skip,
+        hist: RefCell::new(String::new()),
+        hist_index: Cell::new(0),
+        resume_after: v.get("resume_after").and_then(|x| x.as_i64()).unwrap_or(-1),
         seq: Cell::new(0),
-        tally: RefCell::new(Tally::default()),
     };
+    if jobs.is_empty() {
+        println!("M\twsc child: empty or unparsable batch");
+    }
     let scratch = mc::scratch_root();
-    match build(&history, &scratch.join("wal")) {
-        Err(e) => cx.machinery(&format!("cannot build history: {e}")),
-        Ok(b) => {
-            if let Err(p) = mc::catch(|| run_unit(&cx, &b, &u, &scratch)) {
-                cx.machinery(&format!("panic in unit: {p}"));
+    let mut built: Option<Built> = None;
+    for u in &jobs {
+        *cx.hist.borrow_mut() = u.history.render();
+        cx.hist_index.set(u.hist_index);
+        if built.as_ref().map(|b| &b.history) != Some(&u.history) {
+            built = match build(&u.history, &scratch.join("wal")) {
+                Ok(b) => Some(b),
+                Err(e) => {
+                    cx.machinery(&format!("cannot build history: {e}"));
+                    None
+                }
+            };
+        }
+        if let Some(b) = &built {
+            if let Err(p) = mc::catch(|| run_unit(&cx, b, u, &scratch)) {
+                cx.machinery(&format!("panic in job {}: {p}", u.describe()));
             }
         }
     }
-    let t = cx.tally.into_inner();
-    println!(
-        "R\t{}",
-        json!({
-            "evals": t.evals, "outcomes": t.outcomes, "counters": t.counters,
-            "violations": t.violations.iter().map(|(s, o, d)| json!({"sig": s, "order": o, "detail": d})).collect::<Vec<_>>(),
-            "machinery": t.machinery, "guards": t.guards, "sample": t.sample, "exports_ok": t.exports_ok,
-            "faults": cx.seq.get(),
-        })
-    );
+    println!("END\t{}", cx.seq.get());
     let _ = std::fs::remove_dir_all(&scratch);
     std::process::exit(0);
 }
 
 // ───────────────────────────── parent: drive the children ─────────────────────────────
 
-struct UnitResult {
-    summary: Value,
-    /// (profile, kind, fault json, reason) for every fault that killed a child
-    deaths: Vec<(String, String, Value, String)>,
+#[derive(Default)]
+struct BatchResult {
+    /// all protocol lines of all children of the batch (each fault evaluated exactly once)
+    lines: Vec<String>,
+    /// (hist_index, profile, kind, fault json, reason) for every fault that killed a child
+    deaths: Vec<(usize, String, String, Value, String)>,
     error: Option<String>,
 }
 
-fn run_child(u: &Unit, idx: usize) -> UnitResult {
+fn run_child(jobs: &[Unit], idx: usize) -> BatchResult {
     use std::os::unix::process::ExitStatusExt;
-    let mut skip: BTreeSet<u64> = BTreeSet::new();
-    let mut deaths = Vec::new();
+    let mut res = BatchResult::default();
     let exe = match std::env::current_exe() {
         Ok(e) => e,
         Err(e) => {
-            return UnitResult { summary: Value::Null, deaths, error: Some(format!("current_exe: {e}")) }
+            res.error = Some(format!("current_exe: {e}"));
+            return res;
         }
     };
-    for _attempt in 0..48 {
+    let jobs_json: Vec<Value> = jobs.iter().map(|u| u.to_json()).collect();
+    let mut resume_after: i64 = -1;
+    for _attempt in 0..400 {
         let scratch = mc::scratch_root().join("c20-wsc-children").join(format!("u{idx}"));
         let out = std::process::Command::new(&exe)
-            .env("C20_UNIT", u.to_env(&skip))
+            .env("C20_UNIT", json!({"jobs": jobs_json, "resume_after": resume_after}).to_string())
             .env("VERIF_SCRATCH", &scratch)
             .env("RAYON_NUM_THREADS", "1")
             .stdin(std::process::Stdio::null())
@@ -1822,116 +1853,152 @@ fn run_child(u: &Unit, idx: usize) -> UnitResult {
         let _ = std::fs::remove_dir_all(&scratch);
         let out = match out {
             Ok(o) => o,
-            Err(e) => return UnitResult { summary: Value::Null, deaths, error: Some(format!("spawn: {e}")) },
+            Err(e) => {
+                res.error = Some(format!("spawn: {e}"));
+                return res;
+            }
         };
         let stdout = String::from_utf8_lossy(&out.stdout);
-        if let Some(line) = stdout.lines().rev().find(|l| l.starts_with("R\t")) {
-            if out.status.success() {
-                let summary = serde_json::from_str(&line[2..]).unwrap_or(Value::Null);
-                return UnitResult { summary, deaths, error: None };
-            }
+        let finished = out.status.success() && stdout.lines().any(|l| l.starts_with("END\t"));
+        let last_b = stdout.lines().rev().find(|l| l.starts_with("B\t")).map(|x| x.to_string());
+        res.lines.extend(stdout.lines().filter(|l| !l.starts_with("B\t") && !l.starts_with("END\t")).map(|x| x.to_string()));
+        if finished {
+            return res;
         }
         // the child died: the last announced fault was in flight
-        let Some(last) = stdout.lines().rev().find(|l| l.starts_with("B\t")) else {
-            let err = String::from_utf8_lossy(&out.stderr);
-            return UnitResult {
-                summary: Value::Null,
-                deaths,
-                error: Some(format!(
-                    "child died before any fault ({:?}): {}",
-                    out.status,
-                    err.lines().last().unwrap_or("")
-                )),
-            };
-        };
-        let f: Vec<&str> = last.splitn(5, '\t').collect();
-        let seq = f.get(1).and_then(|x| x.parse::<u64>().ok()).unwrap_or(u64::MAX);
         let stderr = String::from_utf8_lossy(&out.stderr);
+        let Some(last) = last_b else {
+            res.error = Some(format!(
+                "child died before any fault ({:?}): {}",
+                out.status,
+                stderr.lines().last().unwrap_or("")
+            ));
+            return res;
+        };
+        let f: Vec<&str> = last.splitn(6, '\t').collect();
+        let seq = f.get(1).and_then(|x| x.parse::<i64>().ok()).unwrap_or(-1);
+        if seq <= resume_after {
+            res.error = Some("child died without progress".into());
+            return res;
+        }
         let reason = if stderr.contains("memory allocation of") {
             "memory-allocation-failed".to_string()
         } else if stderr.contains("stack overflow") {
             "stack-overflow".to_string()
-        } else if stderr.contains("capacity overflow") {
-            "capacity-overflow".to_string()
         } else {
             match out.status.signal() {
                 Some(s) => format!("signal-{s}"),
                 None => format!("exit-{}", out.status.code().unwrap_or(-1)),
             }
         };
-        deaths.push((
-            f.get(2).unwrap_or(&"?").to_string(),
+        res.deaths.push((
+            f.get(2).and_then(|x| x.parse().ok()).unwrap_or(0),
             f.get(3).unwrap_or(&"?").to_string(),
-            f.get(4).and_then(|x| serde_json::from_str(x).ok()).unwrap_or(Value::Null),
+            f.get(4).unwrap_or(&"?").to_string(),
+            f.get(5).and_then(|x| serde_json::from_str(x).ok()).unwrap_or(Value::Null),
             format!("{reason}: {}", stderr.lines().last().unwrap_or("").trim()),
         ));
-        if !skip.insert(seq) {
-            return UnitResult { summary: Value::Null, deaths, error: Some("child died twice on the same fault".into()) };
-        }
+        resume_after = seq;
     }
-    UnitResult { summary: Value::Null, deaths, error: Some("too many child deaths in one unit".into()) }
+    res.error = Some("too many child deaths in one batch".into());
+    res
 }
 
-fn merge(r: &Report, wit: &Witnesses, u: &Unit, res: &UnitResult, samples: &mut Vec<Value>) -> u64 {
-    for (profile, kind, fault, reason) in &res.deaths {
-        r.eval(1);
-        r.outcome(&format!("wsc/{profile}/{kind}→PROCESS-ABORTED"));
-        let sig = if reason.starts_with("memory-allocation-failed") || reason.starts_with("capacity-overflow") {
-            format!("wsc:{profile}:{kind}-unbounded-allocation:aborts-process")
+fn merge(r: &Report, wit: &Witnesses, jobs: &[Unit], res: &BatchResult, samples: &mut Vec<Value>) -> u64 {
+    let hist_of = |i: usize| jobs.iter().find(|u| u.hist_index == i).map(|u| u.history.render()).unwrap_or_default();
+    for (hist_index, profile, kind, fault, reason) in &res.deaths {
+        let sig = if reason.starts_with("memory-allocation-failed") {
+            format!("wsc:{profile}:{kind}-huge-alloc:aborts-process")
         } else {
             format!("wsc:{profile}:{kind}-aborts-process:{}", reason.split(':').next().unwrap_or("?"))
         };
         wit.add_keyed(
             sig,
-            (u.hist_index as u64, format!("{fault}")),
+            (*hist_index as u64, format!("{fault}")),
             json!({
-                "case": {"part": "wsc", "history": u.history.render(), "fault": fault},
+                "case": {"part": "wsc", "history": hist_of(*hist_index), "fault": fault},
                 "observed": format!("the importing process died instead of returning a typed error — {reason} (child under RLIMIT_AS = 3 GiB)"),
             }),
         );
     }
     if let Some(e) = &res.error {
-        r.machinery_error(&format!("wsc unit [{}]: {e}", u.describe()));
-        return 0;
+        r.machinery_error(&format!("wsc batch [{} …]: {e}", jobs.first().map(|u| u.describe()).unwrap_or_default()));
     }
-    let s = &res.summary;
-    r.eval(s.get("evals").and_then(|x| x.as_u64()).unwrap_or(0));
-    if let Some(m) = s.get("outcomes").and_then(|x| x.as_object()) {
-        for (k, v) in m {
-            r.outcome_n(k, v.as_u64().unwrap_or(0));
+    let mut exports = 0;
+    for l in &res.lines {
+        let f: Vec<&str> = l.splitn(3, '\t').collect();
+        match f.first().copied() {
+            Some("E") => r.eval(f.get(1).and_then(|x| x.parse().ok()).unwrap_or(0)),
+            Some("O") => r.outcome(f.get(1).unwrap_or(&"?")),
+            Some("C") => r.counter(f.get(1).unwrap_or(&"?"), f.get(2).and_then(|x| x.parse().ok()).unwrap_or(0)),
+            Some("G") => r.guard(f.get(1).unwrap_or(&"?"), f.get(2) == Some(&"1")),
+            Some("M") => r.machinery_error(f.get(1).unwrap_or(&"?")),
+            Some("X") => exports += 1,
+            Some("S") => {
+                if let Some(v) = f.get(1).and_then(|x| serde_json::from_str::<Value>(&l[2..]).ok().or_else(|| serde_json::from_str(x).ok())) {
+                    samples.push(v);
+                }
+            }
+            Some("V") => {
+                if let Ok(v) = serde_json::from_str::<Value>(&l[2..]) {
+                    wit.add_keyed(
+                        v.get("sig").and_then(|x| x.as_str()).unwrap_or("?").to_string(),
+                        (
+                            v.get("hist_index").and_then(|x| x.as_u64()).unwrap_or(0),
+                            v.get("order").and_then(|x| x.as_str()).unwrap_or("").to_string(),
+                        ),
+                        v.get("detail").cloned().unwrap_or(Value::Null),
+                    );
+                }
+            }
+            _ => {}
         }
     }
-    if let Some(m) = s.get("counters").and_then(|x| x.as_object()) {
-        for (k, v) in m {
-            r.counter(k, v.as_u64().unwrap_or(0));
+    exports
+}
+
+/// Rough cost of a job in "fault evaluations" (for balancing the batches; results do not depend
+/// on it).
+fn job_cost(u: &Unit, b: &Built) -> u64 {
+    let seg: u64 = b.segments.iter().map(|s| s.1.len() as u64).sum();
+    let pay: u64 = b.payloads.iter().map(|p| p.material_bytes.len() as u64).sum();
+    let bits = u.bits.len() as u64;
+    match (u.part, u.profile) {
+        (Part::Envelope(_, lo, hi), _) => (hi.saturating_sub(lo)) as u64 * bits,
+        (Part::Main, Profile::RefOnly) => 30,
+        (Part::Main, Profile::SelfContained) => 30 + if u.blob_flips { (seg * 2 + pay * 3) * bits + seg } else { 0 },
+        (Part::Main, Profile::CasAddressed) => {
+            30 + if u.blob_flips { (seg + pay) * 2 * bits + if u.disk_flips { (seg + pay) * 2 } else { 0 } } else { 0 }
         }
     }
-    if let Some(m) = s.get("guards").and_then(|x| x.as_object()) {
-        for (k, v) in m {
-            r.guard(k, v.as_bool().unwrap_or(false));
-        }
+}
+
+/// Longest-processing-time-first packing of the jobs into `bins` batches; a batch pays a fixed
+/// price per distinct history (the child rebuilds the WAL) and per process start.
+fn pack(jobs: Vec<(Unit, u64)>, bins: usize) -> Vec<Vec<Unit>> {
+    const BUILD: u64 = 2500;
+    let mut order: Vec<usize> = (0..jobs.len()).collect();
+    order.sort_by_key(|&i| (std::cmp::Reverse(jobs[i].1), i));
+    let mut load = vec![0u64; bins];
+    let mut hists: Vec<BTreeSet<usize>> = vec![BTreeSet::new(); bins];
+    let mut out: Vec<Vec<usize>> = vec![Vec::new(); bins];
+    for i in order {
+        let (u, c) = &jobs[i];
+        let best = (0..bins)
+            .min_by_key(|&b| (load[b] + c + if hists[b].contains(&u.hist_index) { 0 } else { BUILD }, b))
+            .unwrap_or(0);
+        load[best] += c + if hists[best].contains(&u.hist_index) { 0 } else { BUILD };
+        hists[best].insert(u.hist_index);
+        out[best].push(i);
     }
-    if let Some(a) = s.get("machinery").and_then(|x| x.as_array()) {
-        for m in a {
-            r.machinery_error(m.as_str().unwrap_or("?"));
-        }
-    }
-    if let Some(a) = s.get("violations").and_then(|x| x.as_array()) {
-        for v in a {
-            wit.add_keyed(
-                v.get("sig").and_then(|x| x.as_str()).unwrap_or("?").to_string(),
-                (u.hist_index as u64, v.get("order").and_then(|x| x.as_str()).unwrap_or("").to_string()),
-                v.get("detail").cloned().unwrap_or(Value::Null),
-            );
-        }
-    }
-    let ok = s.get("exports_ok").and_then(|x| x.as_u64()).unwrap_or(0);
-    if ok > 0 && u.part == Part::Main && u.profile == Profile::SelfContained && u.history.txs.len() == 3 {
-        if let Some(x) = s.get("sample") {
-            samples.push(x.clone());
-        }
-    }
-    ok
+    out.into_iter()
+        .filter(|b| !b.is_empty())
+        .map(|mut b| {
+            // same history adjacent (one WAL build), otherwise original order
+            b.sort_by_key(|&i| (jobs[i].0.hist_index, i));
+            b.into_iter().map(|i| jobs[i].0.clone()).collect()
+        })
+        .collect()
 }
 
 // ───────────────────────────── driver ─────────────────────────────
@@ -1941,6 +2008,49 @@ fn env_count(p: Profile) -> usize {
         Profile::RefOnly => WscRefOnlyWalExport::names().len(),
         Profile::SelfContained => WscSelfContainedWalExport::names().len(),
         Profile::CasAddressed => WscCasAddressedWalExport::names().len(),
+    }
+}
+
+/// encoded length + WSC length of envelope `ei` of the honest export (honest material, in-process).
+fn envelope_total(b: &Built, p: Profile, ei: usize) -> usize {
+    let size = |e: &WscStoreEnvelope| e.encode().len() + e.wsc_bytes().len();
+    match p {
+        Profile::RefOnly => wsc_ref_only_wal_export(&b.root, b.records()).map(|x| size(x.env(ei))).unwrap_or(0),
+        Profile::SelfContained => {
+            wsc_self_contained_wal_export(&b.root, &b.segment_materials(), &b.payloads, b.records())
+                .map(|x| size(x.env(ei)))
+                .unwrap_or(0)
+        }
+        Profile::CasAddressed => {
+            // the reference envelope does not depend on the hashes' values for its size
+            let segs: Vec<WscCasAddressedWalSegmentMaterial> = b
+                .segments
+                .iter()
+                .map(|(id, bytes)| WscCasAddressedWalSegmentMaterial {
+                    segment_id: *id,
+                    content_hash: blake3::hash(bytes).into(),
+                    semantic_coordinate_digest: digest(&format!("c20:segment:{}", id.as_u64())),
+                    byte_len: bytes.len() as u64,
+                })
+                .collect();
+            let rets: Vec<WscCasAddressedRetainedMaterialReference> = b
+                .materials
+                .iter()
+                .map(|m| WscCasAddressedRetainedMaterialReference {
+                    material_kind: m.kind,
+                    content_hash: m.material_digest,
+                    semantic_coordinate_digest: m.semantic_coordinate_digest,
+                    byte_len: b
+                        .payloads
+                        .iter()
+                        .find(|p| p.material.material_digest == m.material_digest)
+                        .map_or(0, |p| p.material_bytes.len() as u64),
+                })
+                .collect();
+            wsc_cas_addressed_wal_export(&b.root, &segs, &rets, b.records())
+                .map(|x| size(x.env(ei)))
+                .unwrap_or(0)
+        }
     }
 }
 
@@ -2013,45 +2123,66 @@ pub fn run(r: &Report, wit: &Witnesses) {
             let env_flips = if r.quick() { is_rich } else { len <= 2 || is_rich };
             if env_flips {
                 for ei in 0..env_count(p) {
-                    units.push(Unit {
-                        hist_index: *i,
-                        history: b.history.clone(),
-                        profile: p,
-                        part: Part::Envelope(ei),
-                        bits: if is_rich { bits.clone() } else { vec![0] },
-                        blob_flips: false,
-                        disk_flips: false,
-                    });
+                    // upper bound of the position space (an envelope of this family is < 64 KiB);
+                    // chunks beyond the real size are empty
+                    let total = envelope_total(b, p, ei);
+                    let chunk = 2048;
+                    let mut lo = 0;
+                    while lo < total {
+                        units.push(Unit {
+                            hist_index: *i,
+                            history: b.history.clone(),
+                            profile: p,
+                            part: Part::Envelope(ei, lo, lo + chunk),
+                            bits: if is_rich { bits.clone() } else { vec![0] },
+                            blob_flips: false,
+                            disk_flips: false,
+                        });
+                        lo += chunk;
+                    }
                 }
             }
         }
     }
-    r.counter("wsc/units_run_in_child_processes", units.len() as u64);
-    let results: Vec<Option<UnitResult>> = units
+    r.counter("wsc/jobs", units.len() as u64);
+    let costed: Vec<(Unit, u64)> = units
+        .into_iter()
+        .map(|u| {
+            let c = ok.iter().find(|(i, _)| *i == u.hist_index).map_or(0, |(_, b)| job_cost(&u, b));
+            (u, c)
+        })
+        .collect();
+    let batches = pack(costed, 32);
+    r.counter("wsc/child_process_batches", batches.len() as u64);
+    let results: Vec<Option<BatchResult>> = batches
         .par_iter()
+        .with_max_len(1)
         .enumerate()
-        .map(|(idx, u)| {
+        .map(|(idx, jobs)| {
             if r.over_budget_frac(0.85) {
                 return None;
             }
-            Some(run_child(u, idx))
+            Some(run_child(jobs, idx))
         })
         .collect();
     let mut exports = 0u64;
     let mut samples = Vec::new();
     let mut skipped = 0u64;
-    for (u, res) in units.iter().zip(results.iter()) {
+    for (jobs, res) in batches.iter().zip(results.iter()) {
         match res {
             Some(res) => {
-                exports += merge(r, wit, u, res, &mut samples);
-                r.nontrivial(format!("wsc-unit:{}", u.describe()).as_bytes());
+                exports += merge(r, wit, jobs, res, &mut samples);
+                for u in jobs {
+                    r.nontrivial(format!("wsc-job:{}", u.describe()).as_bytes());
+                }
             }
             None => skipped += 1,
         }
     }
     if skipped > 0 {
-        r.cap_hit(&format!("wsc: {skipped} of {} units not run (wall cap)", units.len()));
+        r.cap_hit(&format!("wsc: {skipped} of {} child batches not run (wall cap)", batches.len()));
     }
+    samples.sort_by_key(|s| s.to_string());
     for s in samples.into_iter().take(2) {
         r.sample(s);
     }
@@ -2126,14 +2257,15 @@ pub fn replay(r: &Report, case: &Value) {
         }
         units.push(Unit { hist_index: 0, history: h.clone(), profile: p, part: Part::Main, bits: (0..8).collect(), blob_flips: true, disk_flips: true });
         for ei in 0..env_count(p) {
-            units.push(Unit { hist_index: 0, history: h.clone(), profile: p, part: Part::Envelope(ei), bits: (0..8).collect(), blob_flips: false, disk_flips: false });
+            units.push(Unit { hist_index: 0, history: h.clone(), profile: p, part: Part::Envelope(ei, 0, usize::MAX), bits: (0..8).collect(), blob_flips: false, disk_flips: false });
         }
     }
-    let results: Vec<UnitResult> = units.par_iter().enumerate().map(|(i, u)| run_child(u, i)).collect();
+    let batches: Vec<Vec<Unit>> = units.into_iter().map(|u| vec![u]).collect();
+    let results: Vec<BatchResult> = batches.par_iter().enumerate().map(|(i, j)| run_child(j, i)).collect();
     let mut samples = Vec::new();
-    for (u, res) in units.iter().zip(results.iter()) {
-        merge(r, &wit, u, res, &mut samples);
-        r.nontrivial(u.describe().as_bytes());
+    for (jobs, res) in batches.iter().zip(results.iter()) {
+        merge(r, &wit, jobs, res, &mut samples);
+        r.nontrivial(jobs[0].describe().as_bytes());
     }
     r.sample(json!({"replayed": case}));
     r.add_states(1);
